@@ -282,7 +282,7 @@ def layout_jobs(tier, exhaust=False, asan=False):
     q = tier != "thorough"
     out = [
         bx("layout-chk", "layout", "chk", 2, 1000000, 10 if q else 120),
-        bx("layout-miri", "layout", "miri", 6 if q else 16, 2 if q else 40, 400 if q else 3000, sanitizer=True, miriflags=MIRI_SB, timeout=900 if q else 5000),
+        bx("layout-miri", "layout", "miri", 5 if q else 16, 1 if q else 40, 300 if q else 3000, sanitizer=True, miriflags=MIRI_SB, timeout=900 if q else 5000),
     ]
     if asan:
         out.append(bx("layout-asan", "layout", "asan", 1, 1000000, 10 if q else 120, sanitizer=True, env=ASAN_ENV, crash_is_violation=True))
@@ -290,7 +290,7 @@ def layout_jobs(tier, exhaust=False, asan=False):
         out += [
             bx("exhaust-chk", "exhaust", "chk", 1, 1000000, 8 if q else 60, extra=["--quiet-panics", "1"]),
             bx("exhaust-rel", "exhaust", "rel", 1, 1000000, 8 if q else 60, extra=["--quiet-panics", "1"]),
-            bx("exhaust-miri", "exhaust", "miri", 2 if q else 8, 10 if q else 200, 300 if q else 2000, extra=["--quiet-panics", "1"], sanitizer=True, miriflags=MIRI_SB,
+            bx("exhaust-miri", "exhaust", "miri", 1 if q else 8, 8 if q else 200, 300 if q else 2000, extra=["--quiet-panics", "1"], sanitizer=True, miriflags=MIRI_SB,
                timeout=900 if q else 4000),
         ]
     return out
@@ -307,7 +307,7 @@ PROPS["C08"] = {
              "hashes of controlled schedules plus distinct stress histories"),
     "require": {"any": {"schedules": 2000, "schedules-with-competing-bucket-allocation": 20, "gets-that-met-an-unpublished-or-reserved-slot": 100,
                          "snapshots-that-met-unpublished-slots": 100, "lying-iterators": 100, "histories": 50, "ops-overlapping-another-thread": 1000,
-                         "exhaust.reservations-beyond-2^32": 100, "layout.references-checked": 10000}},
+                         "exhaust.reservations-beyond-2^32": 100, "layout.references-checked": 10000, "exhaust.count-read-inside-a-refused-reservation": 20}},
     "assumptions": ["yield points are placed before every atomic operation of the vector (MANIFEST.hooks); interleavings inside a fill callback are not split further",
                     "batch contiguity is recorded, not judged"],
 }
